@@ -64,8 +64,9 @@ fn token_alphabet() -> Vec<(&'static str, Tok, &'static str)> {
 
 const PATH_ALPHABET: [char; 9] = ['a', 'b', 'ż', '.', '-', 'A', '/', '$', '*'];
 
-/// Second, small path alphabet: control characters that are legal in file names (line feed, tab).
-const PATH_ALPHABET_CTL: [char; 5] = ['a', 'b', '\n', '\t', '/'];
+/// Second, small path alphabet: control characters that are legal in file names (line feed, tab) and a
+/// non-ASCII upper-case letter.
+const PATH_ALPHABET_CTL: [char; 6] = ['a', 'b', '\n', '\t', '/', 'Ż'];   // Ż: upper case outside ASCII (token ż with -i)
 
 fn paths_upto(len: usize) -> Vec<String> {
     paths_over(&PATH_ALPHABET, len)
@@ -205,6 +206,12 @@ fn mergeable(prev: &str, next: &str) -> bool {
 }
 
 fn enumerate_globs(max_tokens: usize, first: Option<usize>, f: &mut dyn FnMut(&GlobCase)) {
+    enumerate_globs_from(max_tokens, &first.map(|i| vec![i]).unwrap_or_default(), f)
+}
+
+/// All globs of at most `max_tokens` tokens that start with the given token indices.
+fn enumerate_globs_from(max_tokens: usize, first: &[usize], f: &mut dyn FnMut(&GlobCase)) {
+    let first: Option<Vec<usize>> = if first.is_empty() { None } else { Some(first.to_vec()) };
     let alpha = token_alphabet();
     fn rec(
         alpha: &[(&'static str, Tok, &'static str)],
@@ -238,8 +245,8 @@ fn enumerate_globs(max_tokens: usize, first: Option<usize>, f: &mut dyn FnMut(&G
         }
     }
     match first {
-        Some(i) => {
-            let mut cur = vec![i];
+        Some(v) => {
+            let mut cur = v;
             rec(&alpha, &mut cur, max_tokens, f);
         }
         None => {
@@ -733,7 +740,19 @@ pub fn main(args: &[String]) {
         let (si, sn) = shard.split_once('/').unwrap();
         let (si, sn): (usize, usize) = (si.parse().unwrap(), sn.parse().unwrap());
         let mut i = 0usize;
-        enumerate_globs(k, None, &mut |g| {
+        // --first SRC: only globs whose first token is SRC (e.g. '/' for absolute patterns)
+        // --first T1,T2,..: only globs that start with these tokens ("SLASH" stands for '/')
+        let first: Vec<usize> = arg_val(args, "--first")
+            .map(|list| {
+                list.split(',')
+                    .map(|src| {
+                        let src = if src == "SLASH" { "/" } else { src };
+                        token_alphabet().iter().position(|t| t.0 == src).unwrap_or_else(|| panic!("--first: unknown token {src}"))
+                    })
+                    .collect()
+            })
+            .unwrap_or_default();
+        enumerate_globs_from(k, &first, &mut |g| {
             let mine = i % sn == si;
             i += 1;
             if mine {
